@@ -47,6 +47,9 @@ class Ctx:
     def __init__(self, timeout_ms=10000):
         self.solver = z3.Solver()
         self.solver.set("timeout", timeout_ms)
+        self.timeout_ms = timeout_ms
+        self._cur_timeout = timeout_ms
+        self.feas_timeout_ms = min(timeout_ms, 3000)  # branch feasibility: unknown is treated as feasible
         self.prefix = []  # list of [decision(bool), has_alt(bool)]
         self.pos = 0
         self.n_checks = 0
@@ -60,10 +63,15 @@ class Ctx:
         self.nontrivial = False
         self.notes = []
         self.cut_depth = None
+        self.scratch = {}
 
     # -- solver plumbing
-    def check(self, *assumptions):
+    def check(self, *assumptions, timeout_ms=None):
         t = time.time()
+        ms = timeout_ms or self.timeout_ms
+        if ms != self._cur_timeout:
+            self.solver.set("timeout", ms)
+            self._cur_timeout = ms
         r = self.solver.check(*assumptions)
         self.t_solver += time.time() - t
         self.n_checks += 1
@@ -78,6 +86,7 @@ class Ctx:
         self.model = None
         self.nontrivial = False
         self.notes = []
+        self.scratch = {}  # per-path memo tables of the stand-ins
 
     def end(self):
         self.solver.pop()
@@ -114,8 +123,8 @@ class Ctx:
             self.pos += 1
             self.solver.add(cond if d else z3.Not(cond))
             return d
-        if self.cut_depth is not None and len(self.prefix) >= self.cut_depth:
-            raise Cut()
+        if self.cut_depth is not None and sum(1 for e in self.prefix if len(e) > 2 and e[2]) >= self.cut_depth:
+            raise Cut()  # depth counted in two-sided decisions only
         self.n_decisions += 1
         ncond = z3.Not(cond)
         can_t = can_f = None
@@ -130,7 +139,7 @@ class Ctx:
                 pass
         m_t = m_f = None
         if can_t is None:
-            r = self.check(cond)
+            r = self.check(cond, timeout_ms=self.feas_timeout_ms)
             if r == z3.unknown:
                 self.n_unknown_feas += 1
             can_t = r != z3.unsat
@@ -143,7 +152,7 @@ class Ctx:
                 can_f = True  # invariant: the current path is feasible
                 m_f = self.model
             else:
-                r = self.check(ncond)
+                r = self.check(ncond, timeout_ms=self.feas_timeout_ms)
                 if r == z3.unknown:
                     self.n_unknown_feas += 1
                 can_f = r != z3.unsat
@@ -154,12 +163,12 @@ class Ctx:
         if not can_t and not can_f:
             raise Infeasible()
         if can_t:
-            self.prefix.append([True, bool(can_f)])
+            self.prefix.append([True, bool(can_f), bool(can_f)])
             self.pos += 1
             self.solver.add(cond)
             self.model = m_t
             return True
-        self.prefix.append([False, False])
+        self.prefix.append([False, False, False])
         self.pos += 1
         self.solver.add(ncond)
         self.model = m_f
@@ -167,9 +176,9 @@ class Ctx:
 
     def backtrack(self):
         while self.prefix:
-            d, alt = self.prefix[-1]
+            d, alt = self.prefix[-1][0], self.prefix[-1][1]
             if alt:
-                self.prefix[-1] = [not d, False]
+                self.prefix[-1] = [not d, False, True]
                 return True
             self.prefix.pop()
         return False
@@ -184,6 +193,7 @@ class ConcreteCtx:
         self.values = values
         self.notes = []
         self.choices = {}
+        self.scratch = {}
 
 
 CTX = None
